@@ -8,6 +8,7 @@ import (
 	"strconv"
 	"strings"
 
+	"github.com/gobwas/pool/pbytes"
 	"github.com/gobwas/ws"
 	"github.com/gobwas/ws/wsutil"
 )
@@ -23,6 +24,23 @@ func (c *dataFinReader) Read(p []byte) (int, error) {
 		return n, c.fin
 	}
 	return n, err
+}
+
+// poolChurn takes, scribbles over and returns buffers of every size class of the shared byte pool.
+func poolChurn() {
+	for cls := 128; cls <= 65536; cls *= 2 {
+		var held [][]byte
+		for i := 0; i < 3; i++ {
+			b := pbytes.GetLen(cls)
+			for j := range b {
+				b[j] = 0xAA
+			}
+			held = append(held, b)
+		}
+		for _, b := range held {
+			pbytes.Put(b)
+		}
+	}
 }
 
 func mkReader(data []byte, k int, fin string) (rd interface{ Read([]byte) (int, error) }, pos func() int) {
@@ -102,9 +120,11 @@ func init() {
 		cw := wsutil.NewCipherWriter(lw, mask4(a[0]))
 		var res []string
 		intact := true
+		var callers, origs [][]byte
 		for _, ph := range strings.Split(a[2], ",") {
 			p := unhx(ph)
 			orig := append([]byte(nil), p...)
+			callers, origs = append(callers, p), append(origs, orig)
 			n, err := cw.Write(p)
 			if !bytes.Equal(orig, p) {
 				intact = false
@@ -112,6 +132,13 @@ func init() {
 			res = append(res, fmt.Sprintf("%d:%s", n, classify(err)))
 			if err != nil {
 				break
+			}
+		}
+		// the caller's slices must also survive whatever the byte pool is used for afterwards
+		poolChurn()
+		for i := range callers {
+			if !bytes.Equal(callers[i], origs[i]) {
+				intact = false
 			}
 		}
 		return fmt.Sprintf("%s %s intact=%d", hx(lw.buf.Bytes()), strings.Join(res, ","), b2i(intact))
@@ -227,6 +254,16 @@ func genC02(tier string, r *rng) {
 		}
 		run(fmt.Sprintf("cwr %s %s %s", keys[r.intn(4)], strings.Join(acc, ","), strings.Join(ps, ",")))
 		run(fmt.Sprintf("cwrr %s %s %s", keys[r.intn(4)], strings.Join(acc, ","), strings.Join(ps, ",")))
+		if i%25 == 0 {
+			// caller slices whose capacity is a byte-pool class, every key incl. the zero key
+			for _, n := range []int{128, 256, 4096} {
+				run(fmt.Sprintf("cwr %s - %s,%s", keys[(i/25)%4], hx(r.bytes(n)), hx(r.bytes(n))))
+			}
+			// a reused (Reset) mask writer / reader starts at offset 0 again whatever it processed before
+			h := r.bytes(1 + r.intn(9))
+			run(fmt.Sprintf("rst cwr %s %s %s %s", keys[r.intn(4)], hx(h), keys[r.intn(4)], hx(r.bytes(1+r.intn(20)))))
+			run(fmt.Sprintf("rst cr %s %s %s %s %d", keys[r.intn(4)], hx(h), keys[r.intn(4)], hx(r.bytes(1+r.intn(20))), 1+r.intn(4)))
+		}
 	}
 	// frame helpers
 	variants := []string{"maskWith", "maskInPlaceWith", "mask", "maskInPlace", "unmask", "unmaskInPlace"}
